@@ -78,3 +78,224 @@ Definition run_ubx (a : sx) : sx :=
       end
   | _ => sx_err "ubx"
   end.
+
+(** ---- wait-list protocol: coarse operations replayed on the LTS ----
+    The Go side runs every operation of a walk in its own goroutine on the real
+    pool and observes whether it returned; an operation that has not returned
+    stays pending and may return after a later operation.  Here the same coarse
+    operations are scripts of LTS labels; a script that reaches a disabled label
+    is pending, and after every operation all pending scripts are advanced until
+    nothing moves. *)
+
+Inductive mop :=
+| MLabel (l : label)
+| MPublish (c : nat)      (* the send of SetMasterHead, if the head was stored *)
+| MRLock                  (* LRLock with the wait list in registration order *)
+| MSendAll                (* LSend until the remaining list is empty *)
+| MUpdDone.               (* LUpdDone keeping the previous choice (no connection is alive) *)
+
+Inductive agent_id := GConn (c : nat) | GRun | GWaiter (w : nat).
+Inductive okind := KDone | KSub (w : nat).
+
+Record pend := mkPend { p_op : nat; p_agent : agent_id; p_script : list mop; p_kind : okind }.
+
+Section Walk.
+  Variable nconns : nat.
+  Variable tgt : nat -> N.
+  Notation step := (step nconns tgt).
+
+  Fixpoint send_all (fuel : nat) (s : state) : state * bool :=   (* bool: finished *)
+    match rpc s with
+    | RNotify _ [] => (s, true)
+    | RNotify _ (_ :: _) =>
+        match fuel with
+        | O => (s, false)
+        | S f => match step s LSend with Some s' => send_all f s' | None => (s, false) end
+        end
+    | _ => (s, true)
+    end.
+
+  (* one micro-operation: new state and whether it is complete *)
+  Definition exec_mop (s : state) (m : mop) : state * bool :=
+    match m with
+    | MLabel l => match step s l with Some s' => (s', true) | None => (s, false) end
+    | MPublish c =>
+        match cpc s c with
+        | CIdle => (s, true)
+        | CPub _ => match step s (LPublish c) with Some s' => (s', true) | None => (s, false) end
+        end
+    | MRLock => match step s (LRLock (map snd (wl s))) with Some s' => (s', true) | None => (s, false) end
+    | MSendAll => send_all (S (List.length (wl s))) s
+    | MUpdDone => match step s (LUpdDone (best s)) with Some s' => (s', true) | None => (s, false) end
+    end.
+
+  Fixpoint advance (s : state) (script : list mop) : state * list mop :=
+    match script with
+    | [] => (s, [])
+    | m :: t => let '(s', fin) := exec_mop s m in
+                if fin then advance s' t else (s', script)
+    end.
+
+  Definition finish (k : okind) (s : state) : sx :=
+    match k with
+    | KDone => SA "done"
+    | KSub w => SL [SA "sub"; SB (match wch s w with Some _ => true | None => false end)]
+    end.
+
+  (* one pass over the pending operations: (state, still pending, completions, progress) *)
+  Fixpoint settle_pass (s : state) (ps : list pend) : state * list pend * list sx * bool :=
+    match ps with
+    | [] => (s, [], [], false)
+    | p :: t =>
+        let '(s1, rest) := advance s (p_script p) in
+        let moved := negb (Nat.eqb (List.length rest) (List.length (p_script p))) in
+        let '(s2, ps', outs, prog) := settle_pass s1 t in
+        match rest with
+        | [] => (s2, ps', SL [sx_nat (p_op p); finish (p_kind p) s1] :: outs, true)
+        | _ => (s2, mkPend (p_op p) (p_agent p) rest (p_kind p) :: ps', outs, moved || prog)
+        end
+    end.
+
+  Fixpoint settle (fuel : nat) (s : state) (ps : list pend) : state * list pend * list sx :=
+    match fuel with
+    | O => (s, ps, [])
+    | S f =>
+        let '(s1, ps1, outs, prog) := settle_pass s ps in
+        if prog then let '(s2, ps2, outs2) := settle f s1 ps1 in (s2, ps2, outs ++ outs2)
+        else (s1, ps1, outs)
+    end.
+
+  Definition agent_eqb (a b : agent_id) : bool :=
+    match a, b with
+    | GConn x, GConn y => Nat.eqb x y
+    | GRun, GRun => true
+    | GWaiter x, GWaiter y => Nat.eqb x y
+    | _, _ => false
+    end.
+
+  Definition busy (ps : list pend) (a : agent_id) : bool :=
+    existsb (fun p => agent_eqb (p_agent p) a) ps.
+
+  Definition wants_lock (p : pend) : bool :=
+    match p_script p with
+    | MLabel (LSubLock _) :: _ | MLabel (LUnsub _) :: _ | MLabel LTick :: _ => true
+    | _ => false
+    end.
+
+  (* start a script: result of the operation itself, new state, new pending list *)
+  Definition launch (i : nat) (a : agent_id) (script : list mop) (k : okind)
+             (blocked : sx) (s : state) (ps : list pend) : sx * state * list pend :=
+    let '(s1, rest) := advance s script in
+    match rest with
+    | [] => (finish k s1, s1, ps)
+    | _ => (blocked, s1, ps ++ [mkPend i a rest k])
+    end.
+
+  Definition small (n : N) : nat := N.to_nat (N.min n 64).
+
+  Definition do_op (i : nat) (nw : nat) (o : sx) (s : state) (ps : list pend) : sx * state * list pend :=
+    match o with
+    | SL (SA nm :: args) =>
+      let is x := String.eqb nm x in
+      match args with
+      | [] =>
+          if is "notify" then
+            if busy ps GRun then (SA "busy", s, ps) else
+            match step s LTake with
+            | None => (SA "empty", s, ps)
+            | Some s1 =>
+                let u := match rpc s1 with RWantR u => u | _ => (0, 0%N) end in
+                let '(r, s2, ps2) := launch i GRun [MRLock; MSendAll; MLabel LRUnlock] KDone (SA "blocked") s1 ps in
+                (SL [r; sx_nat (fst u); SN (snd u)], s2, ps2)
+            end
+          else if is "tick" then
+            if busy ps GRun then (SA "busy", s, ps) else
+            launch i GRun (MLabel LTick :: repeat (MLabel LUpdRead) nconns ++ [MUpdDone]) KDone (SA "blocked") s ps
+          else if is "state" then
+            let locked := match writer s with Some _ => true | None => false end || existsb wants_lock ps in
+            (SL [sx_nat (List.length (updq s));
+                 (if locked then SA "locked" else sx_nat (List.length (wl s)));
+                 SL (map (fun w => SB (match wch s w with Some _ => true | None => false end)) (seq 0 nw))],
+             s, ps)
+          else (sx_err "op0", s, ps)
+      | [SN a1] =>
+          let w := small a1 in
+          if is "sub" then
+            if busy ps (GWaiter w) then (SA "busy", s, ps) else
+            match wpc s w with
+            | WNew => launch i (GWaiter w) [MLabel (LSubLock w); MLabel (LSubBody w)] (KSub w) (SA "blocked") s ps
+            | _ => (SA "bad", s, ps)
+            end
+          else if is "recv" then
+            if busy ps (GWaiter w) then (SA "bad", s, ps) else
+            match wpc s w, wch s w with
+            | WWait, Some m =>
+                match step s (LRecv w) with
+                | Some s1 => (SL [SA "head"; SN (snd m)], s1, ps)
+                | None => (sx_err "recv", s, ps)
+                end
+            | WWait, None => (SA "empty", s, ps)
+            | _, _ => (SA "bad", s, ps)
+            end
+          else if is "unsub" then
+            if busy ps (GWaiter w) then (SA "busy", s, ps) else
+            match wpc s w with
+            | WWait => launch i (GWaiter w) [MLabel (LLeave w RTimeout); MLabel (LUnsub w)] KDone (SA "blocked") s ps
+            | WUnsub _ => launch i (GWaiter w) [MLabel (LUnsub w)] KDone (SA "blocked") s ps
+            | _ => (SA "bad", s, ps)
+            end
+          else (sx_err "op1", s, ps)
+      | [SN a1; SN h] =>
+          let c := small a1 in
+          if is "sethead" then
+            if busy ps (GConn c) then (SA "busy", s, ps) else
+            launch i (GConn c) [MLabel (LSetHead c h); MPublish c] KDone (SA "blocked") s ps
+          else (sx_err "op2", s, ps)
+      | _ => (sx_err "op args", s, ps)
+      end
+    | _ => (sx_err "op", s, ps)
+    end.
+
+  (* completions are reported in the order of the operation index *)
+  Definition op_index (x : sx) : nat :=
+    match x with SL (SN i :: _) => N.to_nat (N.min i 100000) | _ => 0 end.
+  Fixpoint ins_by_index (x : sx) (l : list sx) : list sx :=
+    match l with
+    | [] => [x]
+    | y :: t => if Nat.leb (op_index x) (op_index y) then x :: l else y :: ins_by_index x t
+    end.
+  Definition sort_by_index (l : list sx) : list sx := fold_right ins_by_index [] l.
+
+  Fixpoint run_ops (i : nat) (nw : nat) (ops : list sx) (s : state) (ps : list pend) : list sx :=
+    match ops with
+    | [] => []
+    | o :: t =>
+        let '(r, s1, ps1) := do_op i nw o s ps in
+        let '(s2, ps2, outs) := settle (S (S (List.length ps1))) s1 ps1 in
+        SL [r; SL (sort_by_index outs)] :: run_ops (S i) nw t s2 ps2
+    end.
+End Walk.
+
+Fixpoint nth_tgt (l : list sx) (w : nat) : N :=
+  match l, w with
+  | SN t :: _, O => t
+  | _ :: r, S k => nth_tgt r k
+  | _, _ => 0%N
+  end.
+
+(* (nconns (tgt ...) (op ...)): connection 0 is the best one, all heads 0 *)
+Definition run_walk (a : sx) : sx :=
+  match a with
+  | SL [SN nc; SL tgts; SL ops] =>
+      let nconns := small nc in
+      SL (run_ops nconns (nth_tgt tgts) 0 (List.length tgts) ops
+                  (init_state (fun _ => 0%N) (if Nat.eqb nconns 0 then None else Some 0)) [])
+  | _ => sx_err "walk"
+  end.
+
+Definition run (name : string) (a : sx) : sx :=
+  let is x := String.eqb name x in
+  if is "c13.ub" then run_ub a
+  else if is "c13.ubx" then run_ubx a
+  else if is "c13.walk" then run_walk a
+  else sx_err "unknown case kind".
